@@ -76,6 +76,9 @@ Proofs/ReadPrint.vos Proofs/ReadPrint.vok Proofs/ReadPrint.required_vos: Proofs/
 Proofs/Positions.vo Proofs/Positions.glob Proofs/Positions.v.beautified Proofs/Positions.required_vo: Proofs/Positions.v Base/Base.vo Model/Reader.vo Proofs/ReaderTotal.vo
 Proofs/Positions.vio: Proofs/Positions.v Base/Base.vio Model/Reader.vio Proofs/ReaderTotal.vio
 Proofs/Positions.vos Proofs/Positions.vok Proofs/Positions.required_vos: Proofs/Positions.v Base/Base.vos Model/Reader.vos Proofs/ReaderTotal.vos
+Proofs/Heap.vo Proofs/Heap.glob Proofs/Heap.v.beautified Proofs/Heap.required_vo: Proofs/Heap.v Base/Base.vo Model/Reader.vo Model/Printer.vo Model/Api.vo
+Proofs/Heap.vio: Proofs/Heap.v Base/Base.vio Model/Reader.vio Model/Printer.vio Model/Api.vio
+Proofs/Heap.vos Proofs/Heap.vok Proofs/Heap.required_vos: Proofs/Heap.v Base/Base.vos Model/Reader.vos Model/Printer.vos Model/Api.vos
 Props/C01.vo Props/C01.glob Props/C01.v.beautified Props/C01.required_vo: Props/C01.v Base/Base.vo Model/Reader.vo Model/Printer.vo Model/Store.vo Model/Eval.vo Model/Init.vo Proofs/EvalRel.vo Proofs/Cont.vo Proofs/CoreRefine.vo Spec/CoreSem.vo
 Props/C01.vio: Props/C01.v Base/Base.vio Model/Reader.vio Model/Printer.vio Model/Store.vio Model/Eval.vio Model/Init.vio Proofs/EvalRel.vio Proofs/Cont.vio Proofs/CoreRefine.vio Spec/CoreSem.vio
 Props/C01.vos Props/C01.vok Props/C01.required_vos: Props/C01.v Base/Base.vos Model/Reader.vos Model/Printer.vos Model/Store.vos Model/Eval.vos Model/Init.vos Proofs/EvalRel.vos Proofs/Cont.vos Proofs/CoreRefine.vos Spec/CoreSem.vos
@@ -106,6 +109,9 @@ Props/C09.vos Props/C09.vok Props/C09.required_vos: Props/C09.v Base/Base.vos Mo
 Props/C10.vo Props/C10.glob Props/C10.v.beautified Props/C10.required_vo: Props/C10.v Base/Base.vo Model/Reader.vo Model/Printer.vo Model/Store.vo Model/Eval.vo Model/Init.vo Proofs/EvalRel.vo
 Props/C10.vio: Props/C10.v Base/Base.vio Model/Reader.vio Model/Printer.vio Model/Store.vio Model/Eval.vio Model/Init.vio Proofs/EvalRel.vio
 Props/C10.vos Props/C10.vok Props/C10.required_vos: Props/C10.v Base/Base.vos Model/Reader.vos Model/Printer.vos Model/Store.vos Model/Eval.vos Model/Init.vos Proofs/EvalRel.vos
+Props/C11.vo Props/C11.glob Props/C11.v.beautified Props/C11.required_vo: Props/C11.v Base/Base.vo Model/Reader.vo Model/Printer.vo Model/Store.vo Model/Eval.vo Model/Init.vo Model/Api.vo Proofs/Heap.vo Proofs/EvalRel.vo
+Props/C11.vio: Props/C11.v Base/Base.vio Model/Reader.vio Model/Printer.vio Model/Store.vio Model/Eval.vio Model/Init.vio Model/Api.vio Proofs/Heap.vio Proofs/EvalRel.vio
+Props/C11.vos Props/C11.vok Props/C11.required_vos: Props/C11.v Base/Base.vos Model/Reader.vos Model/Printer.vos Model/Store.vos Model/Eval.vos Model/Init.vos Model/Api.vos Proofs/Heap.vos Proofs/EvalRel.vos
 Props/C12.vo Props/C12.glob Props/C12.v.beautified Props/C12.required_vo: Props/C12.v Base/Base.vo Model/Reader.vo Model/Printer.vo Model/Store.vo Model/Eval.vo Model/Init.vo Proofs/Lists.vo
 Props/C12.vio: Props/C12.v Base/Base.vio Model/Reader.vio Model/Printer.vio Model/Store.vio Model/Eval.vio Model/Init.vio Proofs/Lists.vio
 Props/C12.vos Props/C12.vok Props/C12.required_vos: Props/C12.v Base/Base.vos Model/Reader.vos Model/Printer.vos Model/Store.vos Model/Eval.vos Model/Init.vos Proofs/Lists.vos
@@ -127,3 +133,6 @@ Props/C17.vos Props/C17.vok Props/C17.required_vos: Props/C17.v Base/Base.vos Mo
 Props/C19.vo Props/C19.glob Props/C19.v.beautified Props/C19.required_vo: Props/C19.v Base/Base.vo Model/Reader.vo Model/Printer.vo Model/Store.vo Model/Eval.vo Model/Init.vo Proofs/Contexts.vo
 Props/C19.vio: Props/C19.v Base/Base.vio Model/Reader.vio Model/Printer.vio Model/Store.vio Model/Eval.vio Model/Init.vio Proofs/Contexts.vio
 Props/C19.vos Props/C19.vok Props/C19.required_vos: Props/C19.v Base/Base.vos Model/Reader.vos Model/Printer.vos Model/Store.vos Model/Eval.vos Model/Init.vos Proofs/Contexts.vos
+Props/C20.vo Props/C20.glob Props/C20.v.beautified Props/C20.required_vo: Props/C20.v Base/Base.vo Model/Reader.vo Model/Printer.vo Model/Api.vo Proofs/Heap.vo
+Props/C20.vio: Props/C20.v Base/Base.vio Model/Reader.vio Model/Printer.vio Model/Api.vio Proofs/Heap.vio
+Props/C20.vos Props/C20.vok Props/C20.required_vos: Props/C20.v Base/Base.vos Model/Reader.vos Model/Printer.vos Model/Api.vos Proofs/Heap.vos
